@@ -28,6 +28,7 @@ CONSTANTS Procs,       \* process identifiers
           MaxStarts,   \* how many operations may be started in total
           AllowCrash,  \* BOOLEAN
           MaxFaults,   \* number of injected faults
+          IsEmptyData(_), \* is this data value the empty byte string (a fresh temp file is then complete)
           NoFile       \* model value
 
 VARIABLES cf,          \* Datas -> NoFile | bytes (a data id; "part" = incomplete bytes)
@@ -93,20 +94,24 @@ Start(p, o) ==
 
 CreateTmp(p) ==        \* openat(tmp/.tmpXXXX, O_CREAT|O_EXCL)
     /\ pc[p] = "w_create"
-    /\ tmpf' = [tmpf EXCEPT ![p] = [d |-> op[p].d, n |-> 0]]
+    /\ tmpf' = [tmpf EXCEPT ![p] = [d |-> op[p].d, n |-> IF IsEmptyData(op[p].d) THEN 2 ELSE 0]]
     /\ pc' = [pc EXCEPT ![p] = "w_data"]
     /\ UNCHANGED <<cf, bex, bk, op, res, seen, fdc, acc, todo, crashed, nfaults, nstarts, log>>
 
-WriteTmp(p) ==         \* write(tmpfd, chunk): data arrives in two chunks
+\* tmpf[p].n: 0 = empty, 1 = some of the data, 2 = all of it
+WriteTmp(p) ==         \* write(tmpfd, chunk) (or a copy into the memory map): any number of chunks
     /\ pc[p] = "w_data" /\ tmpf[p].n < 2
-    /\ tmpf' = [tmpf EXCEPT ![p].n = @ + 1]
+    /\ \E m \in {1, 2} : tmpf' = [tmpf EXCEPT ![p].n = m]
     /\ UNCHANGED <<cf, bex, bk, pc, op, res, seen, fdc, acc, todo, crashed, nfaults, nstarts, log>>
 
 Publish(p) ==          \* renameat(tmp, content path): linearization point 1
     /\ pc[p] = "w_data" /\ tmpf[p].n = 2        \* only after the last chunk has been written
     /\ cf' = [cf EXCEPT ![op[p].d] = IF tmpf[p].n = 2 THEN op[p].d ELSE "part"]
     /\ tmpf' = [tmpf EXCEPT ![p] = NoFile]
-    /\ IF op[p].op = "write_hash"
+    /\ IF "reject" \in DOMAIN op[p]
+       THEN \* declared size / integrity not met: checked after publication, nothing is indexed
+            Finish(p, Err("Rejected")) /\ UNCHANGED <<bex, bk>>
+       ELSE IF op[p].op = "write_hash"
        THEN Finish(p, Ok(op[p].d)) /\ UNCHANGED <<bex, bk>>
        ELSE pc' = [pc EXCEPT ![p] = "w_open"] /\ UNCHANGED <<bex, bk, res, log>>
     /\ UNCHANGED <<op, seen, fdc, acc, todo, crashed, nfaults, nstarts>>
